@@ -667,7 +667,7 @@ func openFromZipReader(zipReader *zip.Reader, filename string) (*Document, error
 //	if err != nil {
 //		log.Fatal(err)
 //	}
-func (d *Document) Save(filename string) error {
+func (d *Document) Save(filename string) (err error) {
 	Infof("正在保存文档: %s", filename)
 
 	// 确保目录存在
@@ -683,11 +683,23 @@ func (d *Document) Save(filename string) error {
 		Errorf("无法创建文件: %s", filename)
 		return WrapErrorWithContext("create_file", err, filename)
 	}
-	defer file.Close()
+	// 关闭文件时的错误（例如缓冲数据刷新失败）也必须报告给调用者，
+	// 否则磁盘已满或超过文件大小限制时会返回nil却留下一个被截断的文件
+	defer func() {
+		if closeErr := file.Close(); closeErr != nil && err == nil {
+			Errorf("无法关闭文件: %s", filename)
+			err = WrapErrorWithContext("close_file", closeErr, filename)
+		}
+	}()
 
 	// 创建ZIP写入器
 	zipWriter := zip.NewWriter(file)
-	defer zipWriter.Close()
+	zipClosed := false
+	defer func() {
+		if !zipClosed {
+			zipWriter.Close()
+		}
+	}()
 
 	// 序列化主文档
 	if err := d.serializeDocument(); err != nil {
@@ -724,6 +736,13 @@ func (d *Document) Save(filename string) error {
 		}
 
 		Debugf("已写入ZIP条目: %s (%d 字节)", name, len(data))
+	}
+
+	// 写入中央目录；zip.Writer的写入是带缓冲的，小文档的所有写入错误都在这里才出现
+	zipClosed = true
+	if err := zipWriter.Close(); err != nil {
+		Errorf("无法完成ZIP写入: %s", filename)
+		return WrapErrorWithContext("close_zip", err, filename)
 	}
 
 	Infof("成功保存文档: %s", filename)
